@@ -375,9 +375,11 @@ def main(tier, seed):
     check = vlib.Check(PROP, tier, seed)
     base = dict(MaxCalls=1, ToggleAnytime='FALSE', RegisterAnytime='FALSE', RecHist='FALSE', Mutant='""')
     # 1. model checking at the finest grain (cache steps separate)
-    fine = {'quick': [dict(NProcs=2, PoolSize=9, PoolFrom=1, MaxCache=1, MaxToggles=1, MaxRegs=0, Gates='{"yield","p","t"}')],
-            'thorough': [dict(NProcs=2, PoolSize=12, PoolFrom=1, MaxCache=1, MaxToggles=1, MaxRegs=1, Gates='{"yield","p","t"}'),
-                         dict(NProcs=3, PoolSize=4, PoolFrom=3, MaxCache=0, MaxToggles=0, MaxRegs=0, Gates='{"yield","p","t"}'),
+    fine = {'quick': [dict(NProcs=2, PoolSize=9, PoolFrom=1, MaxCache=1, MaxToggles=1, MaxRegs=0, Gates='{"yield","p","t"}'),
+                      dict(NProcs=2, PoolSize=6, PoolFrom=13, MaxCache=1, MaxToggles=0, MaxRegs=0, Gates='{"yield","p","t"}')],
+            'thorough': [dict(NProcs=2, PoolSize=12, PoolFrom=1, MaxCache=1, MaxToggles=1, MaxRegs=0, Gates='{"yield","p","t"}'),
+                         dict(NProcs=2, PoolSize=15, PoolFrom=4, MaxCache=1, MaxToggles=0, MaxRegs=1, Gates='{"yield","p","t"}'),
+                         dict(NProcs=3, PoolSize=3, PoolFrom=3, MaxCache=0, MaxToggles=0, MaxRegs=0, Gates='{"yield","p","t"}'),
                          dict(NProcs=2, PoolSize=2, PoolFrom=10, MaxCache=0, MaxToggles=1, MaxRegs=0, Gates='{"yield","p","t"}')]}[tier]
     # (a separate interpreter, so that this one stays single-threaded for the forks below)
     code = ('import json,sys,vlib\n'
@@ -392,9 +394,14 @@ def main(tier, seed):
     # 2. replay of every schedule on real threads
     if tier == 'quick':
         pool = replay_config(check, 'yield-2', dict(NProcs=2, PoolSize=9, PoolFrom=1, MaxCache=1, MaxToggles=0, MaxRegs=0, Gates='{"yield"}'))
+        pool = pool + replay_config(check, 'yield-2-args-glommer', dict(NProcs=2, PoolSize=6, PoolFrom=13, MaxCache=1, MaxToggles=0,
+                                                                        MaxRegs=0, Gates='{"yield"}'))
     else:
-        pool = replay_config(check, 'yield-2', dict(NProcs=2, PoolSize=9, PoolFrom=1, MaxCache=1, MaxToggles=1, MaxRegs=1, Gates='{"yield"}'))
-        replay_config(check, 'yield-3', dict(NProcs=3, PoolSize=4, PoolFrom=3, MaxCache=1, MaxToggles=1, MaxRegs=0, Gates='{"yield"}'))
+        pool = replay_config(check, 'yield-2', dict(NProcs=2, PoolSize=9, PoolFrom=1, MaxCache=1, MaxToggles=1, MaxRegs=0, Gates='{"yield"}'))
+        pool = pool + replay_config(check, 'yield-2-args-glommer', dict(NProcs=2, PoolSize=6, PoolFrom=13, MaxCache=1, MaxToggles=0,
+                                                                        MaxRegs=1, Gates='{"yield"}'))
+        replay_config(check, 'yield-2-registry', dict(NProcs=2, PoolSize=2, PoolFrom=4, MaxCache=1, MaxToggles=0, MaxRegs=1, Gates='{"yield"}'))
+        replay_config(check, 'yield-3', dict(NProcs=3, PoolSize=4, PoolFrom=3, MaxCache=1, MaxToggles=0, MaxRegs=0, Gates='{"yield"}'))
     replay_config(check, 'pathcache-steps', dict(NProcs=2, PoolSize=2, PoolFrom=10, MaxCache=0, MaxToggles=1, MaxRegs=0,
                                                  Gates='{"yield","p"}'), gated=True)
     # 3. free-running threads, validated by TLC
@@ -423,7 +430,8 @@ def main(tier, seed):
         mres = {}
         for m in MUTANTS:
             r = vlib.run_tlc('MC_C20', cfg='MC_C20_mutant',
-                             constants=dict(base, NProcs=2, PoolSize=9, PoolFrom=1, MaxCache=1, MaxToggles=1, MaxRegs=1,
+                             constants=dict(base, NProcs=2, PoolSize=9, PoolFrom=1, MaxCache=1,
+                                            MaxToggles=0 if m == 'noreset' else 1, MaxRegs=1 if m == 'noreset' else 0,
                                             Gates='{"yield","p","t"}', Mutant='"%s"' % m), timeout=3000, heap='8g')
             mres[m] = r['violated']
             if r['violated'] != 'NonInterference':
@@ -431,7 +439,9 @@ def main(tier, seed):
         for name in ('ToggleAnytime', 'RegisterAnytime'):
             r = vlib.run_tlc('MC_C20', cfg='MC_C20_mutant',
                              constants=dict(dict(base, **{name: 'TRUE'}), NProcs=2, PoolSize=9, PoolFrom=1, MaxCache=1,
-                                            MaxToggles=1, MaxRegs=1, Gates='{"yield","p","t"}'), timeout=3000, heap='8g')
+                                            MaxToggles=1 if name == 'ToggleAnytime' else 0,
+                                            MaxRegs=1 if name == 'RegisterAnytime' else 0,
+                                            Gates='{"yield","p","t"}'), timeout=3000, heap='8g')
             mres['boundary:' + name] = r['violated']
             if r['violated'] != 'NonInterference':
                 raise vlib.MachineryError('%s configuration unexpectedly satisfies the law' % name)
